@@ -210,6 +210,8 @@ class Builder(object):
             op["prebuilt"] = True
         elif self.rng.random() < 0.25:
             op["form"] = self.rng.choice(["array", "tuple"])      # numpy array of Expressions / tuple of tuples
+            if op["form"] == "array" and self.rng.random() < 0.5:
+                op["reuse_buffer"] = True       # ... a work array the caller refills afterwards
         if self.names:
             op["name"] = "lmi_" + M
         self.ops.append(op)
